@@ -133,6 +133,17 @@ Proof.
   cbn zeta in *. destruct H as (H1 & (H2 & H3) & _). repeat split; assumption.
 Qed.
 
+(* ... in this receive loop's own terms, for each of the four ways it ends a session - a stream error
+   from the server included: quit is closed before the first application callback (router, event
+   handler, error callback) is entered, and never again.  Together with C18_no_ping_once_quit_closed:
+   no keep-alive while those callbacks run, however long they take. *)
+Theorem C18_quit_before_callbacks : forall e,
+  exists rest, recv_ending e = RQuit :: rest /\ ~ In RQuit rest /\ existsb is_callback rest = true.
+Proof.
+  intros e. destruct e; cbn [recv_ending]; eexists; (split; [reflexivity|]); split;
+    try reflexivity; cbn [In]; intros H; repeat (destruct H as [H|H]; [discriminate|]); exact H.
+Qed.
+
 (* Once the loop has taken the quit branch no action follows, whatever the schedule
    offers afterwards: n pings, stop the ticker, return; no Close, no later ping. *)
 Theorem C18_after_quit_silent : forall fail n suf,
@@ -274,6 +285,7 @@ Print Assumptions C18_failure_closes_connection.
 Print Assumptions C18_connection_closed_iff_failed.
 Print Assumptions C18_loss_reported.
 Print Assumptions C18_session_end_closes_quit.
+Print Assumptions C18_quit_before_callbacks.
 Print Assumptions C18_after_quit_silent.
 Print Assumptions C18_stopped_silent.
 Print Assumptions C18_stops_iff.
